@@ -151,6 +151,7 @@ func esErrName(kind, code int) string {
 }
 
 func errselMain(s *simrt.Sim, info *harness.RunInfo) {
+	harness.ChooseTransportNoPause(s, 150) // some runs go through fasthttp's real connection loop
 	s.SetPreempt(0)
 	safe := s.Chance(300)
 	// "/Admin", "/Admin/Sub": prefixes that are not all lower case. Request paths below them are spelled
